@@ -145,6 +145,29 @@ def rec_case(seed):
             fillmask = okc
             pair('adding_constant_shifts_background_only', np.concatenate([np.asarray(bs.background)[fillmask], np.asarray(bs.background_rms)[fillmask]]),
                  np.concatenate([bkg[fillmask] + sh, rms[fillmask]]), tol=3)
+            # a large un-subtracted pedestal (2^27 ~ 1.3e8, exactly representable next to the small integers): the estimators work on
+            # differences, not on raw moments
+            big_sh = 2.0 ** 27
+            bb2 = run(d + big_sh)
+            pair('adding_a_large_pedestal_shifts_background_only', np.concatenate([np.asarray(bb2.background)[fillmask] - big_sh, np.asarray(bb2.background_rms)[fillmask]]),
+                 np.concatenate([bkg[fillmask], rms[fillmask]]), tol=3)
+            if estimator == 'biweight' and noclip and h % by == 0 and w % bx == 0 and not large:
+                # the biweight estimators against astropy.stats on the good pixels of every kept box (no clipping: hot pixels stay in)
+                from astropy.stats import biweight_location, biweight_scale
+                okm = np.isfinite(d)
+                if m is not None:
+                    okm &= ~m
+                if cm is not None:
+                    okm &= ~cm
+                got_b, got_r, exp_b, exp_r = [], [], [], []
+                for r_ in range(h // by):
+                    for c_ in range(w // bx):
+                        vals = d[r_ * by:(r_ + 1) * by, c_ * bx:(c_ + 1) * bx][okm[r_ * by:(r_ + 1) * by, c_ * bx:(c_ + 1) * bx]]
+                        if 100 * vals.size > (100 - p) * by * bx and vals.size >= 2:
+                            got_b.append(float(b.background_mesh[r_, c_])); got_r.append(float(b.background_rms_mesh[r_, c_]))
+                            exp_b.append(float(biweight_location(vals))); exp_r.append(float(biweight_scale(vals)))
+                if got_b:
+                    pair('biweight_meshes_equal_astropy_biweight_of_the_box_pixels', got_b + got_r, exp_b + exp_r, tol=2)
             kf = rng.choice([3.0, 3.0, 2.0 ** -33, 2.0 ** 20])          # also tiny and huge absolute values (powers of two: exact scaling)
             bk = run(d * kf)
             pair('scaling_scales_background_and_rms', np.concatenate([np.asarray(bk.background)[fillmask], np.asarray(bk.background_rms)[fillmask]]) * (3.0 / kf),
